@@ -304,7 +304,7 @@ class MutateModel:
         t = w["target"]
         if isinstance(t, ast.Name) and t.id == "backup_filename":
             return "backup"
-        if isinstance(t, ast.BoolOp) and isinstance(t.op, ast.Or) and [getattr(v, "id", None) for v in t.values] == ["output_filename", "input_filename"]:
+        if isinstance(t, ast.BoolOp) and isinstance(t.op, ast.Or) and sorted(getattr(v, "id", "") for v in t.values) == ["input_filename", "output_filename"]:
             return "output"
         return "other"
 
@@ -342,6 +342,9 @@ def mutate_targets_and_encoding(ctx: Ctx) -> None:
         roles.append(role)
         ctx.expect("R-FWD", f, f"{role} file is written in the detected encoding", isinstance(e, ast.Name) and e.id == m.enc_var and single,
                    f"encoding={src(e) if e is not None else 'absent'}", f"{src(c, 70)}: encoding is {src(e) if e is not None else 'not passed (platform default)'}, not the detected one", node=c)
+        if role == "output":
+            ctx.expect("R-EFFECT", f, "the output goes to output_filename when given, else to the input file", ast.unparse(w["target"]) == "output_filename or input_filename",
+                       ast.unparse(w["target"]), f"target is {ast.unparse(w['target'])}: the input file would be overwritten although an output name was given", node=c)
         ctx.expect("R-EFFECT", f, f"write target of {src(c.func, 30)} is a documented one", role in ("backup", "output"), role,
                    f"{src(w['target']) if w['target'] is not None else '?'} is neither backup_filename nor 'output_filename or input_filename'", node=c)
         ctx.expect("R-EFFECT", f, f"{role} file is truncated and rewritten (mode 'w')", w["mode"] == "w", repr(w["mode"]), f"mode is {w['mode']!r}", node=c)
@@ -354,8 +357,14 @@ def mutate_targets_and_encoding(ctx: Ctx) -> None:
         if m.role(w) != "backup" or w["with"] is None:
             continue
         fs = facts(ctx, f, w["call"])
-        ctx.expect("R-TABLE", f, "backup written exactly when a backup name was given", any(pol and isinstance(a, ast.Name) and a.id == "backup_filename" for a, pol in fs)
-                   and len(fs) == 1, unparse_facts(fs), f"backup is written under {unparse_facts(fs)}", node=w["call"])
+        common = set()
+        for w2 in m.writes:
+            if m.role(w2) == "output":
+                common = {(norm(a), pol) for a, pol in facts(ctx, f, w2["call"])}
+        own = [(a, pol) for a, pol in fs if (norm(a), pol) not in common
+               and not (isinstance(a, ast.Compare) and isinstance(a.ops[0], (ast.In, ast.NotIn)) and isinstance(a.left, ast.Name) and a.left.id == "backup_filename")]
+        ctx.expect("R-TABLE", f, "backup written exactly when a backup name was given", any(pol and isinstance(a, ast.Name) and a.id == "backup_filename" for a, pol in own)
+                   and len(own) == 1, unparse_facts(own), f"backup is written under {unparse_facts(own)}", node=w["call"])
 
 
 def mutate_name_check(ctx: Ctx) -> None:
